@@ -113,6 +113,18 @@ def _finish_codes(chk, rule, trusted, exhaustive=True):
     return chk.finish()
 
 
+def _suite(chk, prefixes):
+    """The repository's own test programs, recorded through harness/suiteshim.c, validated by TraceLibec."""
+    from . import suite
+    try:
+        v = suite.validate_into(chk, prefixes)
+    except Exception as e:  # the suite is an additional source of histories: its absence is recorded, not fatal
+        chk.parts["suite_histories"] = {"unavailable": str(e)[:400]}
+        return
+    if v is not None:
+        chk.parts["suite_events_validated"] = v.events
+
+
 def _samples(chk, files, kinds=("Dec", "Rec", "Need"), n=4):
     got = 0
     for f in files:
@@ -152,6 +164,8 @@ def c01(backends=None, prop="C01"):
     chk.parts["decode_events"] = c[1]
     chk.parts["driver_commands"] = len(cmds)
     _samples(chk, files)
+    if prop == "C01":
+        _suite(chk, ["C13/C01", "C02 success", "fault"])
     return _finish_codes(chk,
         "every tolerated erasure set (all |E|<hd of all 38 XOR tables; all |E|<=m of every RS shape with k+m<=%d; "
         "sampled sets on boundary/large shapes) x 3 fragment arrangements (in order; shuffled with duplicates and "
@@ -212,6 +226,7 @@ def c02():
     chk.parts["decode_events"] = c[1]; chk.parts["decode_beyond_tolerance"] = c[3]; chk.parts["decode_refused"] = c[4]
     chk.parts["reconstruct_events"] = c[5]; chk.parts["faults"] = c[9]
     _samples(chk, files)
+    _suite(chk, ["C02", "fault"])
     return _finish_codes(chk,
         "every sub-set of every stripe up to |E|<=%s for all 38 XOR tables (decode + reconstruct of each missing index), "
         "sampled larger sets up to all fragments missing, every sub-set of every RS stripe with k+m<=%d, in crash-isolated "
@@ -248,6 +263,8 @@ def c03(backends=None, prop="C03"):
     chk.cov["distinct_nontrivial"] = c[5]
     chk.parts["reconstruct_events"] = c[5]; chk.parts["reconstruct_refused"] = c[6]
     _samples(chk, files, kinds=("Rec",))
+    if prop == "C03":
+        _suite(chk, ["C13/C03", "C02 reconstruct", "fault"])
     return _finish_codes(chk,
         "same scenario space as C01 x every missing destination (byte comparison of header, both CRCs and payload with the "
         "fragment encode produced), destinations among the supplied fragments, shuffled/unaligned lists, and destinations "
